@@ -5,10 +5,15 @@ CLASSES = {
   'MessageSink': dict(path='MessageSink', bases=[], fields={'_next': 'Channel?'}),
   'ClientMessageSink': dict(path='ClientMessageSink', bases=['MessageSink'], fields={'_on_faulted': 'Observable'}),
   'Observable': dict(extern=True, path=None, fields={'value': 'any'}, bases=[]),
-  'SinkStack': dict(path='SinkStack', bases=[], fields={'_stack': 'deque[tuple[any,any]]'}),
+  'SinkStack': dict(path='SinkStack', bases=[], fields={'_stack': 'deque[tuple[any,any]]', 'g_posted': 'int'}, ghost=['g_posted']),
   'ClientMessageSinkStack': dict(path='ClientMessageSinkStack', bases=['SinkStack'], fields={}),
   # a request/reply message: only its properties dictionary is visible to the sinks verified here
-  'Message': dict(extern=True, path=None, fields={'properties': 'dict[str,any]'}, bases=[]),
+  'Message': dict(extern=True, path=None, fields={'properties': 'Props'}, bases=[]),
+  # message.properties: a dict used as a record with a few well-known keys
+  'Props': dict(extern=True, path=None, bases=[], dictlike={
+    '__Tag': ('tag', 'int?'), '__Deadline': ('deadline', 'real?'),
+    '__Deadline_Event': ('event', 'Observable?'), '__Endpoint': ('endpoint', 'any')}),
+  'Deadline': dict(file='scales/message.py', path='Deadline', bases=[], fields={'_ts': 'int', '_timeout': 'int'}),
 }
 FUNCTIONS = {
   'SinkStack.Push': dict(
@@ -20,4 +25,42 @@ FUNCTIONS = {
     modifies=['deque[tuple[any,any]]'],
     props=['C01', 'C04'],
   ),
+
+  # response delivery into a call's stack.  g_posted (ghost) counts the messages posted into the
+  # stack by its holders (transport, timer, pool, ...): 'exactly one message per request' is
+  # stated with it.  The popped sink continues the drain, so only lower bounds are known after.
+  'ClientMessageSinkStack.AsyncProcessResponse': dict(
+    cls='ClientMessageSinkStack', params={'stream': 'any', 'msg': 'any'},
+    requires=[], ensures=['self.g_posted == old(self.g_posted) + 1',
+             'forall_ref(k, ClientMessageSinkStack, implies(k != self, k.g_posted == old(k.g_posted)), k.g_posted)'],
+    modifies=['SinkStack.g_posted', 'deque[tuple[any,any]]'], allocates=True, trusted=True,
+    notes='verified as a unit under C01 (pop at most one entry, invoke it once); callers in transports use this summary; '
+          'assumed not to re-enter the calling transport synchronously',
+  ),
+  'ClientMessageSinkStack.AsyncProcessResponseStream': dict(
+    cls='ClientMessageSinkStack', params={'stream': 'any'},
+    requires=[], ensures=['self.g_posted == old(self.g_posted) + 1',
+             'forall_ref(k, ClientMessageSinkStack, implies(k != self, k.g_posted == old(k.g_posted)), k.g_posted)'],
+    modifies=['SinkStack.g_posted', 'deque[tuple[any,any]]'], allocates=True, trusted=True,
+    notes='see ClientMessageSinkStack.AsyncProcessResponse',
+  ),
+  'ClientMessageSinkStack.AsyncProcessResponseMessage': dict(
+    cls='ClientMessageSinkStack', params={'msg': 'any'},
+    requires=[], ensures=['self.g_posted == old(self.g_posted) + 1',
+             'forall_ref(k, ClientMessageSinkStack, implies(k != self, k.g_posted == old(k.g_posted)), k.g_posted)'],
+    modifies=['SinkStack.g_posted', 'deque[tuple[any,any]]'], allocates=True, trusted=True,
+    notes='see ClientMessageSinkStack.AsyncProcessResponse',
+  ),
+}
+
+EXTERNS = {
+  'Observable.Get': dict(params=[], returns='any', ensures=['result == self.value']),
+  'Observable.Set': dict(params=[('value', 'any')], modifies=['Observable.value'], allocates=True,
+                         ensures=['self.value == value', 'forall_ref(o, Observable, implies(o != self, o.value == old(o.value)), o.value)'],
+                         notes='sets the value and spawns the notification greenlet (callbacks run later)'),
+  'Observable.Subscribe': dict(params=[('callback', 'any'), ('one_shot', 'bool')], requires=['callback is not None'],
+                               notes='registers a callback; one-shot callbacks are delivered at most once (assumed)'),
+  'Observable.Unsubscribe': dict(params=[('callback', 'any')]),
+  'time.time': dict(params=[], returns='real', ensures=['result > 0'],
+                    notes='wall clock; monotonicity is stated where a proof needs it'),
 }
